@@ -77,7 +77,7 @@ func (s *c11State) newSrc() int { s.nSrc++; return s.nSrc }
 
 func (s *c11State) raise(src int, what string) *c11Err {
 	s.nErr++
-	id := fmt.Sprintf("e%d-src%d-%s", s.nErr, src, what)
+	id := fmt.Sprintf("%c%d-src%d-%s", "zqaexmb"[(s.nErr*5+s.salt)%7], s.nErr, src, what) // messages are not in any order an accidental sort would preserve
 	e := &c11Err{err: c11MakeErr(id, s.nErr*5+s.salt), id: id, what: what, src: src, seq: s.nErr}
 	s.byErr[e.err] = e
 	s.c.Rec.Count("detail:error_value_kind:"+c11ErrKindNames[(s.nErr*5+s.salt)%len(c11ErrKindNames)], 1)
@@ -352,7 +352,16 @@ func (s *c11State) step(r *gen.R) {
 	say := func(f string, a ...interface{}) { s.log = append(s.log, fmt.Sprintf(f, a...)) }
 	period := func() int { return r.Range(1, 3) }
 	s.dest = nil
-	switch r.Intn(26) {
+	switch r.Intn(27) {
+	case 26:
+		// looking is not touching: the program prints the table (or hands it to another table as an item, whose
+		// cell then asks it for its text form) for a log line or a debugger
+		say("the table is formatted with %%v, %%+v and %%#v, and stored as an item in a cell of another table")
+		_ = fmt.Sprintf("%v %+v", t, t)
+		_ = fmt.Sprintf("%#v", t)
+		outer := tabular.New()
+		outer.AddRowItems("nested", t)
+		s.c.Rec.Count("observations_of_the_table_through_fmt_and_as_an_item", 1)
 	case 25:
 		// errors whose value is the zero value of their type are errors all the same
 		say("t.AddError(zero-valued struct error); t.AddErrorList([error code 0, nil, NoSuchCellError{}])")
